@@ -19,9 +19,9 @@ func init() {
 		Patterns: []string{"./d2oracle", "./d2ast", "./d2graph"},
 		Explanation: "Decides shape clauses of d2oracle's mutators (exported functions that take a board path and return a graph): (1) every success return gives back the graph produced by recompile — compiled from d2format.Format of the edited AST — or the caller's graph on a path on which no AST-mutating helper (a function that, transitively inside the package, assigns to a field of a d2ast node) was called; " +
 			"(2) every string node the oracle builds from a non-constant value is made by d2ast.RawString (never FlatUnquotedString/FlatDoubleQuotedString or a struct literal), so the quoting guarantees of C05 apply to every edit; " +
-			"(3) loops that delete the current element of the slice they index (x = append(x[:i], x[i+1:]...) / slices.Delete) step the index back or leave the loop on that path — otherwise the element that slides into the slot is skipped (import removal leaves dangling imports).",
-		NotCovered: "that the recompile succeeds, formatter stability of the result, semantic correctness of each edit (C38–C40), path-prefix logic of UpdateImport",
-		Technique:  "static analysis: returned-value provenance and must-not-pass queries on go/cfg, who-constructs inventory, delete-in-loop index discipline",
+			"(3) loops that delete the current element of the slice they index (x = append(x[:i], x[i+1:]...) / slices.Delete) step the index back or leave the loop on that path — otherwise the element that slides into the slot is skipped (import removal leaves dangling imports); (4) in UpdateImport's path matching, a pattern that was tested to end with the separator is not reassigned before it is used as the directory prefix under that test (a cleaned pattern loses the separator and foo/ matches foobar/x).",
+		NotCovered: "that the recompile succeeds, formatter stability of the result, semantic correctness of each edit (C38–C40), path-prefix logic of UpdateImport beyond the separator clause",
+		Technique:  "static analysis: returned-value provenance and must-not-pass queries on go/cfg, who-constructs inventory, delete-in-loop index discipline, stale-fact query (suffix test / prefix use)",
 		Run:        runC36,
 	})
 	register(&Prop{
@@ -151,7 +151,92 @@ var staleReturnExceptions = map[string]string{
 	"d2oracle.Delete": "the second HasChild after renameConflictsToParent cannot fail: the rename only touches children of the object, which was found just before (kept as a reviewed belief; the return would hand back the pre-edit graph)",
 }
 
+// runC36SuffixPrefix: a string that was tested to end with a separator and is then used as a *prefix* under that
+// test (a directory match) still ends with the separator: nothing that may strip it (any reassignment of the
+// variable) executes between the suffix test and the prefix test.
+func runC36SuffixPrefix(c *core.Check) {
+	c.Rule("C36.suffix-then-prefix", "a pattern tested to end with the separator is unchanged when it is used as a prefix under that test")
+	pk := c.P.Pkg("d2oracle")
+	if pk == nil {
+		return
+	}
+	info := pk.TypesInfo
+	n := 0
+	for _, fi := range c.P.Funcs(pk) {
+		if fi.Decl.Body == nil {
+			continue
+		}
+		type fact struct {
+			p      types.Object
+			anchor ast.Node
+		}
+		flags := map[types.Object]fact{}
+		suffixOf := func(e ast.Expr) (types.Object, bool) {
+			call, ok := ast.Unparen(e).(*ast.CallExpr)
+			if !ok || !core.IsCallTo(info, call, "strings.HasSuffix") || len(call.Args) != 2 {
+				return nil, false
+			}
+			if tv, ok := info.Types[call.Args[1]]; !ok || tv.Value == nil {
+				return nil, false
+			}
+			o := core.ObjOf(info, call.Args[0])
+			return o, o != nil
+		}
+		ast.Inspect(fi.Decl.Body, func(x ast.Node) bool {
+			as, ok := x.(*ast.AssignStmt)
+			if !ok || len(as.Lhs) != 1 || len(as.Rhs) != 1 {
+				return true
+			}
+			if o, ok := suffixOf(as.Rhs[0]); ok {
+				if b := core.ObjOf(info, as.Lhs[0]); b != nil {
+					flags[b] = fact{o, as}
+				}
+			}
+			return true
+		})
+		var fl *core.Flow
+		for _, call := range core.Calls(fi.Decl.Body, false) {
+			if !core.IsCallTo(info, call, "strings.HasPrefix") || len(call.Args) != 2 {
+				continue
+			}
+			p := core.ObjOf(info, call.Args[1])
+			if p == nil {
+				continue
+			}
+			if fl == nil {
+				fl = core.NewFlow(fi.Pkg, fi.Decl.Body)
+			}
+			for _, g := range fl.GuardsOfNode(call) {
+				for _, a := range g.Atoms() {
+					if !a.True {
+						continue
+					}
+					var anchor ast.Node
+					if id, ok := ast.Unparen(a.Cond).(*ast.Ident); ok {
+						if f, ok := flags[info.Uses[id]]; ok && f.p == p {
+							anchor = f.anchor
+						}
+					} else if o, ok := suffixOf(a.Cond); ok && o == p {
+						anchor = a.Cond
+					}
+					if anchor == nil {
+						continue
+					}
+					n++
+					mod := modifiedOnPath(fi, fl, anchor, call, map[types.Object]bool{p: true}, nil)
+					c.Decide(!mod, "C36.suffix-then-prefix", "suffix-prefix:"+fname(fi)+":"+p.Name(), call.Pos(), "not reassigned between the suffix test and the prefix test",
+						fmt.Sprintf("%s was tested to end with the separator, but it is reassigned before strings.HasPrefix uses it as the directory prefix: when the new value lost the separator (path.Clean, TrimSuffix), an import of foobar/x matches the directory foo/ and is rewritten", p.Name()))
+				}
+			}
+		}
+	}
+	if n == 0 {
+		c.Fail("C36.suffix-then-prefix", "suffix-prefix:inventory", token.NoPos, "no directory-prefix test found in d2oracle")
+	}
+}
+
 func runC36(c *core.Check) {
+	runC36SuffixPrefix(c)
 	c.Rule("C36.recompiled", "success returns of a mutator give back a recompiled graph, or the input graph on a path without AST mutation")
 	c.Rule("C36.rawstring", "string nodes built from non-constant values are made by d2ast.RawString")
 	c.Rule("C36.delete-in-loop", "a loop that deletes the current element of the slice it indexes steps the index back or leaves the loop")
@@ -1123,7 +1208,7 @@ func runC37InPlace(c *core.Check) {
 		}
 		return true
 	})
-	if nsites < 20 {
+	if nsites < 10 {
 		c.Fail("C37.in-place-guard", "in-place:inventory", token.NoPos, fmt.Sprintf("only %d in-place rewrites found in _set", nsites))
 	}
 	// the map _set appends the new key into, when it takes it from a reference of a connection, is the connection's own
